@@ -19,6 +19,8 @@ var externs map[string]externFn
 const prelude = `
 (declare-sort Str 0)
 (declare-sort Err 0)
+(declare-sort Ref 0)
+(declare-const ref_nil Ref)
 (declare-const err_nil Err)
 (declare-fun err_wraps (Err Err) Bool)
 (declare-fun slen (Str) Int)
@@ -31,9 +33,11 @@ const prelude = `
 (define-fun godiv ((a Int) (b Int)) Int (ite (>= a 0) (div a b) (- (div (- a) b))))
 (define-fun gorem ((a Int) (b Int)) Int (ite (>= a 0) (mod a (abs b)) (- (mod (- a) (abs b)))))
 (define-fun str_eq ((s Str) (t Str)) Bool (= s t))
-(assert (forall ((s Str)) (! (>= (slen s) 0) :pattern ((slen s)))))
+(assert (forall ((s Str)) (! (and (>= (slen s) 0) (<= (slen s) 140737488355328)) :pattern ((slen s)))))
 (assert (forall ((a (Array Int Int)) (o Int) (l Int)) (! (=> (>= l 0) (= (slen (mkstr a o l)) l)) :pattern ((mkstr a o l)))))
 (assert (forall ((a (Array Int Int)) (o Int) (l Int) (j Int)) (! (=> (and (<= 0 j) (< j l)) (= (select (sarr (mkstr a o l)) j) (select a (+ o j)))) :pattern ((select (sarr (mkstr a o l)) j)))))
+(assert (forall ((s Str) (o Int) (l Int)) (! (=> (and (= o 0) (= l (slen s))) (= (mkstr (sarr s) o l) s)) :pattern ((mkstr (sarr s) o l)))))
+(assert (forall ((a Str) (b Str) (o Int) (l Int)) (! (and (=> (and (= o 0) (= l (slen a))) (= (mkstr (sarr (sconcat a b)) o l) a)) (=> (and (= o (slen a)) (= l (slen b))) (= (mkstr (sarr (sconcat a b)) o l) b))) :pattern ((mkstr (sarr (sconcat a b)) o l)))))
 (assert (forall ((a Str) (b Str)) (! (= (slen (sconcat a b)) (+ (slen a) (slen b))) :pattern ((sconcat a b)))))
 (assert (forall ((a Str) (b Str) (j Int)) (! (=> (and (<= 0 j) (< j (+ (slen a) (slen b)))) (= (select (sarr (sconcat a b)) j) (ite (< j (slen a)) (select (sarr a) j) (select (sarr b) (- j (slen a)))))) :pattern ((select (sarr (sconcat a b)) j)))))
 `
@@ -237,7 +241,7 @@ func init() {
 	const hashing = "github.com/ava-labs/avalanchego/utils/hashing."
 	externs[hashing+"Checksum"] = func(f *Frame, call *ast.CallExpr, recv Val, args []Val, st *State) []Val {
 		in := f.in
-		in.D.declareFun("checksum", []string{SStr, SInt}, SStr)
+		in.declareChecksum()
 		s := f.strOfSlice(args[0], st)
 		n := args[1].(Sc).T
 		c := App("checksum", SStr, s, n)
@@ -396,4 +400,9 @@ func (in *Interp) hasPrefixUF(s, p Term) Term {
 	in.D.declareFun("bytes_hasprefix", []string{SStr, SStr}, SBool)
 	in.D.declareOnce("bytes_hasprefix_def", "(assert (forall ((s Str) (p Str)) (! (= (bytes_hasprefix s p) "+hasPrefixTerm(Term{S: "s", Sort: SStr}, Term{S: "p", Sort: SStr}).S+") :pattern ((bytes_hasprefix s p)))))")
 	return App("bytes_hasprefix", SBool, s, p)
+}
+
+func (in *Interp) declareChecksum() {
+	in.D.declareFun("checksum", []string{SStr, SInt}, SStr)
+	in.D.declareOnce("checksum_len", "(assert (forall ((s Str) (n Int)) (! (=> (>= n 0) (= (slen (checksum s n)) n)) :pattern ((checksum s n)))))")
 }
